@@ -481,7 +481,32 @@ func (g *Gen) Pipeline() Doc {
 	// `<<` merge (`- <<: {k1: v1}` then the other keys) or through a merge of an
 	// anchored mapping defined in the previous step's position; the denoted data
 	// and key order are unchanged ("merged keys stand where the merge key stood").
-	if mg := g.pick("present.merge", 3); mg != 0 {
+	mg := g.pick("present.merge", 4)
+	if mg == 3 {
+		// an inline merge whose only key is overridden by a later explicit key, placed first in every
+		// order-preserving mapping (unknown steps, legacy plugins mappings; the env block below): the denoted
+		// data and order are unchanged
+		over := func(m *N) {
+			if m == nil || m.K != KMap || len(m.Keys) < 2 || m.Keys[0] == "<<" {
+				return
+			}
+			last := m.Keys[len(m.Keys)-1]
+			src := &N{K: KMap, Merge: true, Keys: []string{last}, Vals: []*N{Str("overridden by the explicit key")}}
+			m.Keys = append([]string{"<<"}, m.Keys...)
+			m.Vals = append([]*N{src}, m.Vals...)
+		}
+		for i, it := range sin.Items {
+			if kinds[i] == "unknown" {
+				over(it)
+			}
+			if it.K == KMap {
+				over(it.Get("plugins"))
+				over(it.Get("agents"))
+			}
+		}
+		g.Trace = append(g.Trace, "merge=overridden-key")
+	}
+	if mg == 1 || mg == 2 {
 		for _, it := range sin.Items {
 			if it.K != KMap || len(it.Keys) < 2 {
 				continue
@@ -521,6 +546,14 @@ func (g *Gen) Pipeline() Doc {
 		return Doc{In: sin, Expected: UMap("steps", sout), Descr: strings.Join(g.Trace, " "), Kinds: kinds}
 	}
 	in, out := g.mappingFrom("", PipelineFeatures, true)
+	if mg == 3 {
+		if e := in.Get("env"); e != nil && e.K == KMap && len(e.Keys) >= 2 {
+			last := e.Keys[len(e.Keys)-1]
+			src := &N{K: KMap, Merge: true, Keys: []string{last}, Vals: []*N{Str("overridden by the explicit key")}}
+			e.Keys = append([]string{"<<"}, e.Keys...)
+			e.Vals = append([]*N{src}, e.Vals...)
+		}
+	}
 	in.Set("steps", sin)
 	out.Set("steps", sout)
 	// steps first or last in the input
